@@ -37,6 +37,13 @@ pub use self::session::Session;
 pub use self::topic::{TopicFilter, TopicFilterError, TopicFilterLevel};
 pub use self::types::QoS;
 
+#[cfg(ntex_mqtt_verif)]
+#[doc(hidden)]
+/// Verification hook: the crate-private topic filter validator used by the dispatchers.
+pub fn verif_topic_is_valid(topic: &str) -> bool {
+    topic::is_valid(topic)
+}
+
 // http://www.iana.org/assignments/service-names-port-numbers/service-names-port-numbers.xhtml
 pub const TCP_PORT: u16 = 1883;
 pub const TLS_PORT: u16 = 8883;
